@@ -4,6 +4,7 @@ from __future__ import annotations
 
 from asyncio import (
     FIRST_COMPLETED,
+    CancelledError,
     ensure_future,
     gather,
     get_running_loop,
@@ -949,6 +950,13 @@ class Executor(Generic[TContext]):
             abort = ensure_future(abort_signal.wait())
             try:
                 await wait({task, abort}, return_when=FIRST_COMPLETED)
+            except CancelledError:
+                # This wrapper has been cancelled itself (e.g. since a sibling failed),
+                # so the wrapped awaitable must be cancelled and unwound as well.
+                task.cancel()
+                with suppress(BaseException):
+                    await task
+                raise
             finally:
                 if not abort.done():
                     abort.cancel()
